@@ -157,7 +157,7 @@ enum ChildPosition {
 //@item src/lib.rs :: fn insert_child
 //@rule R15
 //@sub /\) -> RenderNode/ ==> ) -> (r: RenderNode)
-//@auto C01 C14
+//@auto C01 C14 C03
 fn insert_child(
     new_child: RenderNode,
     mut orig: RenderNode,
@@ -165,13 +165,13 @@ fn insert_child(
 ) -> (r: RenderNode)
     ensures //@w
         // containers, blocks and table cells: the marker becomes the first (Start) / last (End) child, everything else is kept in order (C14)
-        kids(orig.info) matches Some(oc) ==> (same_shell(orig.info, r.info) && kids(r.info) == Some(placed(oc, new_child, position)) && r.style == orig.style), //@w @C14 #marker_first_child
+        kids(orig.info) matches Some(oc) ==> (same_shell(orig.info, r.info) && kids(r.info) == Some(placed(oc, new_child, position)) && r.style == orig.style), //@w @C14 @C03 #marker_first_child
         // table rows, bodies and tables: the marker goes to the first cell of the first row; with no cell there is nothing to attach it to
-        orig.info matches RenderNodeInfo::TableRow(orow, v) ==> (r.info matches RenderNodeInfo::TableRow(rrow, rv) && rv == v && r.style == orig.style && rrow.cells@.len() == orow.cells@.len() && rrow.col_sizes == orow.col_sizes && rrow.style == orow.style && (forall|k: int| 1 <= k < orow.cells@.len() ==> #[trigger] rrow.cells@[k] == orow.cells@[k]) && (orow.cells@.len() > 0 ==> (rrow.cells@[0].content@ == placed(orow.cells@[0].content@, new_child, position) && rrow.cells@[0].colspan == orow.cells@[0].colspan && rrow.cells@[0].col_width == orow.cells@[0].col_width && rrow.cells@[0].style == orow.cells@[0].style && rrow.cells@[0].size_estimate == orow.cells@[0].size_estimate))), //@w @C14 #marker_first_cell_of_row
-        orig.info matches RenderNodeInfo::TableBody(orows) ==> (r.info matches RenderNodeInfo::TableBody(rrows) && r.style == orig.style && rrows@.len() == orows@.len() && (forall|k: int| 1 <= k < orows@.len() ==> #[trigger] rrows@[k] == orows@[k]) && (orows@.len() > 0 ==> (rrows@[0].cells@.len() == orows@[0].cells@.len() && rrows@[0].col_sizes == orows@[0].col_sizes && rrows@[0].style == orows@[0].style && (forall|k: int| 1 <= k < orows@[0].cells@.len() ==> #[trigger] rrows@[0].cells@[k] == orows@[0].cells@[k]) && (orows@[0].cells@.len() > 0 ==> (rrows@[0].cells@[0].content@ == placed(orows@[0].cells@[0].content@, new_child, position) && rrows@[0].cells@[0].colspan == orows@[0].cells@[0].colspan && rrows@[0].cells@[0].col_width == orows@[0].cells@[0].col_width && rrows@[0].cells@[0].style == orows@[0].cells@[0].style && rrows@[0].cells@[0].size_estimate == orows@[0].cells@[0].size_estimate))))), //@w @C14 #marker_first_cell_of_body
-        orig.info matches RenderNodeInfo::Table(ot) ==> (r.info matches RenderNodeInfo::Table(rt) && r.style == orig.style && rt.num_columns == ot.num_columns && rt.rows@.len() == ot.rows@.len() && (forall|k: int| 1 <= k < ot.rows@.len() ==> #[trigger] rt.rows@[k] == ot.rows@[k]) && (ot.rows@.len() > 0 ==> (rt.rows@[0].cells@.len() == ot.rows@[0].cells@.len() && rt.rows@[0].col_sizes == ot.rows@[0].col_sizes && rt.rows@[0].style == ot.rows@[0].style && (forall|k: int| 1 <= k < ot.rows@[0].cells@.len() ==> #[trigger] rt.rows@[0].cells@[k] == ot.rows@[0].cells@[k]) && (ot.rows@[0].cells@.len() > 0 ==> (rt.rows@[0].cells@[0].content@ == placed(ot.rows@[0].cells@[0].content@, new_child, position) && rt.rows@[0].cells@[0].colspan == ot.rows@[0].cells@[0].colspan && rt.rows@[0].cells@[0].col_width == ot.rows@[0].cells@[0].col_width && rt.rows@[0].cells@[0].style == ot.rows@[0].cells@[0].style && rt.rows@[0].cells@[0].size_estimate == ot.rows@[0].cells@[0].size_estimate))))), //@w @C14 #marker_first_cell_of_table
+        orig.info matches RenderNodeInfo::TableRow(orow, v) ==> (r.info matches RenderNodeInfo::TableRow(rrow, rv) && rv == v && r.style == orig.style && rrow.cells@.len() == orow.cells@.len() && rrow.col_sizes == orow.col_sizes && rrow.style == orow.style && (forall|k: int| 1 <= k < orow.cells@.len() ==> #[trigger] rrow.cells@[k] == orow.cells@[k]) && (orow.cells@.len() > 0 ==> (rrow.cells@[0].content@ == placed(orow.cells@[0].content@, new_child, position) && rrow.cells@[0].colspan == orow.cells@[0].colspan && rrow.cells@[0].col_width == orow.cells@[0].col_width && rrow.cells@[0].style == orow.cells@[0].style && rrow.cells@[0].size_estimate == orow.cells@[0].size_estimate))), //@w @C14 @C03 #marker_first_cell_of_row
+        orig.info matches RenderNodeInfo::TableBody(orows) ==> (r.info matches RenderNodeInfo::TableBody(rrows) && r.style == orig.style && rrows@.len() == orows@.len() && (forall|k: int| 1 <= k < orows@.len() ==> #[trigger] rrows@[k] == orows@[k]) && (orows@.len() > 0 ==> (rrows@[0].cells@.len() == orows@[0].cells@.len() && rrows@[0].col_sizes == orows@[0].col_sizes && rrows@[0].style == orows@[0].style && (forall|k: int| 1 <= k < orows@[0].cells@.len() ==> #[trigger] rrows@[0].cells@[k] == orows@[0].cells@[k]) && (orows@[0].cells@.len() > 0 ==> (rrows@[0].cells@[0].content@ == placed(orows@[0].cells@[0].content@, new_child, position) && rrows@[0].cells@[0].colspan == orows@[0].cells@[0].colspan && rrows@[0].cells@[0].col_width == orows@[0].cells@[0].col_width && rrows@[0].cells@[0].style == orows@[0].cells@[0].style && rrows@[0].cells@[0].size_estimate == orows@[0].cells@[0].size_estimate))))), //@w @C14 @C03 #marker_first_cell_of_body
+        orig.info matches RenderNodeInfo::Table(ot) ==> (r.info matches RenderNodeInfo::Table(rt) && r.style == orig.style && rt.num_columns == ot.num_columns && rt.rows@.len() == ot.rows@.len() && (forall|k: int| 1 <= k < ot.rows@.len() ==> #[trigger] rt.rows@[k] == ot.rows@[k]) && (ot.rows@.len() > 0 ==> (rt.rows@[0].cells@.len() == ot.rows@[0].cells@.len() && rt.rows@[0].col_sizes == ot.rows@[0].col_sizes && rt.rows@[0].style == ot.rows@[0].style && (forall|k: int| 1 <= k < ot.rows@[0].cells@.len() ==> #[trigger] rt.rows@[0].cells@[k] == ot.rows@[0].cells@[k]) && (ot.rows@[0].cells@.len() > 0 ==> (rt.rows@[0].cells@[0].content@ == placed(ot.rows@[0].cells@[0].content@, new_child, position) && rt.rows@[0].cells@[0].colspan == ot.rows@[0].cells@[0].colspan && rt.rows@[0].cells@[0].col_width == ot.rows@[0].cells@[0].col_width && rt.rows@[0].cells@[0].style == ot.rows@[0].cells@[0].style && rt.rows@[0].cells@[0].size_estimate == ot.rows@[0].cells@[0].size_estimate))))), //@w @C14 @C03 #marker_first_cell_of_table
         // anything else (text, inline elements, lists, headings …): a new container holding the marker and the node, marker first for Start
-        kids(orig.info).is_none() && !(orig.info is TableRow) && !(orig.info is TableBody) && !(orig.info is Table) ==> //@w[ @C14 #marker_wraps_node
+        kids(orig.info).is_none() && !(orig.info is TableRow) && !(orig.info is TableBody) && !(orig.info is Table) ==> //@w[ @C14 @C03 #marker_wraps_node
             (r.info matches RenderNodeInfo::Container(rc) && rc@ == (if position == ChildPosition::Start { seq![new_child, orig] } else { seq![orig, new_child] })), //@w]
 {
     use RenderNodeInfo::*;
